@@ -142,6 +142,20 @@ def _into_iter(I, a, d):
         return RIter.from_list(items)
     if hasattr(v, "into_iter"):
         return v.into_iter(I)
+    if isinstance(v, Ref):
+        # iterating a borrowed collection yields references to its elements
+        t = peel(v)
+        if isinstance(t, VecObj):
+            return RIter.from_list([Ref(ElemLoc(t.items, i), v.mut) for i in range(len(t.items))])
+        if isinstance(t, HashSetObj):
+            items = list(t.items)
+            if len(items) > 1 and I.w.choose(2, "hashset-order") == 1:
+                items.reverse()
+            return RIter.from_list([Ref(ValLoc(x)) for x in items])
+        if hasattr(t, "iter_refs"):
+            return t.iter_refs(I, v.mut)
+        if isinstance(t, RIter):
+            return t
     raise Inconclusive("into_iter on %r" % (v,))
 
 
@@ -805,6 +819,10 @@ def _into(I, a, d):
     fb = base_type_name(d["self"])[-1]
     if fb == tb:
         return a[0]
+    if to.startswith("[u8;") and hasattr(v, "as_sbytes"):
+        return BufObj(to, v.as_sbytes())       # GenericArray<u8, N> -> [u8; N]
+    if to.startswith("[u8;") and isinstance(v, (BufObj, BytesRef)):
+        return BufObj(to, v.sb)
     raise Inconclusive("Into<%s> for %s" % (to, d["self"]))
 
 
@@ -2602,6 +2620,22 @@ def _str_contains(I, a, d):
     return _contains(I, as_sbytes(a[0]), _pattern_bytes(a[1]))
 
 
+def _affix_eq(I, s, p, front):
+    """Does the (partly symbolic) text s start / end with the concrete bytes p?"""
+    m = len(p)
+    ln = s.length()
+    if is_sym(ln):
+        if not I.w.branch(z3.UGE(bv(ln, 64), bv(m, 64)), "affix-len"):
+            return False
+    elif ln < m:
+        return False
+    part = sb.slice_(s, 0, m, I.w) if front else sb.slice_(s, I._sub(ln, m), ln, I.w)
+    e = sb.content_eq(part, SBytes.of(p), I.w)
+    if e is True or e is False:
+        return e
+    return I.w.branch(e, "affix-eq")
+
+
 @T.path("core::str::starts_with", "str::starts_with")
 def _str_starts_with(I, a, d):
     s, p = sb.concretise_atoms(as_sbytes(a[0])), _pattern_bytes(a[1])
@@ -2613,7 +2647,7 @@ def _str_starts_with(I, a, d):
         return s.concrete().startswith(p)
     if not s.segs:
         return p == b""
-    raise Inconclusive("str::starts_with over symbolic text")
+    return _affix_eq(I, s, p, True)
 
 
 @T.path("core::str::ends_with", "str::ends_with")
@@ -2627,7 +2661,7 @@ def _str_ends_with(I, a, d):
         return s.concrete().endswith(p)
     if not s.segs:
         return p == b""
-    raise Inconclusive("str::ends_with over symbolic text")
+    return _affix_eq(I, s, p, False)
 
 
 @T.path("core::str::find", "str::find")
@@ -2828,10 +2862,6 @@ def _path_ancestors(I, a, d):
     return RIter.from_list(out)
 
 
-@T.path("std::path::Path::components", "std::path::Path::iter")
-def _path_components_iter(I, a, d):
-    raise Inconclusive("Path::components is not modelled")
-
 
 @T.path("std::path::Path::strip_prefix")
 def _path_strip_prefix(I, a, d):
@@ -2844,4 +2874,33 @@ def _path_strip_prefix(I, a, d):
 
 @T.path("std::path::Path::extension", "std::path::Path::file_stem", "std::path::Path::with_extension", "std::path::Path::with_file_name")
 def _path_misc(I, a, d):
-    raise Inconclusive("Path API %s is not modelled" % d.get("raw"))
+    which = d["segs"][-1]
+    is_abs, comps = path_components(as_sbytes(a[0]))
+    last = comps[-1] if comps else None
+    if last is not None and last.is_concrete() and last.concrete() == b"..":
+        last = None
+    if which == "with_file_name":
+        base = comps[:-1] if last is not None else comps
+        return mk_pathbuf(path_from(is_abs, base + [as_sbytes(a[1])]))
+    if last is None:
+        if which == "with_extension":
+            return mk_pathbuf(as_sbytes(a[0]))
+        return NONE()
+    if not last.is_concrete():
+        raise Inconclusive("Path API %s on a symbolic file name" % which)
+    name = last.concrete()
+    dot = name.rfind(b".")
+    if dot <= 0:
+        stem, ext = name, None
+    else:
+        stem, ext = name[:dot], name[dot + 1:]
+    if which == "extension":
+        return NONE() if ext is None else SOME(BytesRef(ext, "path"))
+    if which == "file_stem":
+        return SOME(BytesRef(stem, "path"))
+    new_ext = as_sbytes(a[1])
+    if new_ext.is_concrete() and not new_ext.concrete():
+        newname = SBytes.of(stem)
+    else:
+        newname = SBytes.of(stem) + b"." + new_ext
+    return mk_pathbuf(path_from(is_abs, comps[:-1] + [newname]))
